@@ -7,8 +7,10 @@ import numpy as np
 
 from common import R
 
-LEAN_MODULES = ["PyomaVerif.Props.C10", "PyomaVerif.Mutants.C10", "PyomaVerif.Props.C09"]
+LEAN_MODULES = ["PyomaVerif.Props.C10", "PyomaVerif.Mutants.C10", "PyomaVerif.Props.C09", "PyomaVerif.Props.WiringRun"]
 THEOREMS = [
+    # call-site wiring of the class layer, regenerated from /repo on every run (translate_wiring.py)
+    "PV.WiringRun.C10_sc_apply_wiring",
     # C10_from_result_tables: in every run() the three arguments of SC_apply are the very tables stored as
     # Fn_poles/Xi_poles/Phi_poles after the last mask (obligation `labOf` of the programs translated from /repo)
     "PV.C09.C09_seq_SSIdat",
@@ -50,7 +52,10 @@ def pre_build(ctx):
 
     ok, msg, summary = translate_hc.write(REPO, LEAN)
     ctx.notes.append(f"translator: {msg}")
-    return ok, msg
+    from common import wiring_pre_build
+
+    ok2, msg2 = wiring_pre_build(ctx)
+    return ok and ok2, msg + "; " + msg2
 
 
 EXTRA_TRUSTED = ["float rounding of the three ratios and of MAC (cases within 1e-9 of a tolerance are not judged)"]
